@@ -23,7 +23,7 @@ func init() {
 		Level: "exploration",
 		Rule: "each case = one streamed input of N records (quick 5000, thorough 200000) of one format under a fixed set of ancestors, generated lazily " +
 			"(io.Reader over a record generator, never materialised); variants: targets that pass / fail the FINAL_OUTPUT filter interleaved, per-record " +
-			"transform failures, respelled target filters (other quote character, literals containing a quote or bracket, two predicates, xml attribute tests), insignificant separators between records (whitespace/newlines in XML and JSON, blank lines in csv/fixed-length, CR/LF " +
+			"transform failures, runs of consecutive non-targets, targets that are records with child records or groups (csv2 / fixedlength2 / edi), respelled target filters (other quote character, literals containing a quote or bracket, two predicates, xml attribute tests), insignificant separators between records (whitespace/newlines in XML and JSON, blank lines in csv/fixed-length, CR/LF " +
 			"between EDI segments with ignore_crlf). Monitor: number of nodes reachable from the k-th delivered record (Parent links to the root, whole " +
 			"tree) sampled at k=1..20 and ~200 evenly spaced k; must satisfy max over the second half <= max over the first quarter. Growth is attributed " +
 			"by node class (type, depth relative to the record, sibling-of-record). distinct = (format, variant) streams; non-trivial = >=1000 records delivered.",
@@ -31,7 +31,7 @@ func init() {
 			"retention is measured as reachable idr nodes (the statement's own metric), not heap bytes; heap-in-use is reported but never decides",
 			"records of one stream have the same shape, so a correct reader shows an exactly constant size",
 		},
-		Cases: func(t core.Tier) int { return 84 },
+		Cases: func(t core.Tier) int { return 96 },
 		Run:   runC17,
 		Batch: func(t core.Tier) int { return 2 },
 		Min: func(t core.Tier) map[string]int64 {
@@ -116,8 +116,94 @@ func classify(root, rec *idr.Node) map[string]int {
 	return out
 }
 
+// c17Hier: csv2 / fixedlength2 / edi streams whose target is a record with child records, or a group, filtered by FINAL_OUTPUT's xpath
+// (non-targets alternate with targets, or come in runs of three).
+func c17Hier(c *core.Ctx, which int) {
+	format := []string{"csv2", "fixedlength2", "edi"}[which%3]
+	group := (which/3)%2 == 1
+	runs := which/6 == 1
+	N := 5000
+	if c.Tier == core.Thorough {
+		N = 200000
+	}
+	var fd string
+	switch format {
+	case "csv2":
+		h := `"header":"^H,","columns":[{"name":"id","index":2},{"name":"n","index":3}]`
+		l := `{"name":"L","header":"^L,","min":0,"max":-1,"columns":[{"name":"v","index":2}]}`
+		if group {
+			fd = `{"delimiter":",","records":[{"name":"G","type":"record_group","is_target":true,"min":0,"max":-1,"child_records":[{"name":"H","min":1,"max":1,` + h + `},` + l + `]}]}`
+		} else {
+			fd = `{"delimiter":",","records":[{"name":"H","is_target":true,"min":0,"max":-1,` + h + `,"child_records":[` + l + `]}]}`
+		}
+	case "fixedlength2":
+		h := `"header":"^H","columns":[{"name":"id","start_pos":2,"length":6},{"name":"n","start_pos":8,"length":1}]`
+		l := `{"name":"L","header":"^L","min":0,"max":-1,"columns":[{"name":"v","start_pos":2,"length":4}]}`
+		if group {
+			fd = `{"envelopes":[{"name":"G","type":"envelope_group","is_target":true,"min":0,"max":-1,"child_envelopes":[{"name":"H","min":1,"max":1,` + h + `},` + l + `]}]}`
+		} else {
+			fd = `{"envelopes":[{"name":"H","is_target":true,"min":0,"max":-1,` + h + `,"child_envelopes":[` + l + `]}]}`
+		}
+	default:
+		h := `"elements":[{"name":"id","index":1},{"name":"n","index":2}]`
+		l := `{"name":"L","min":0,"max":-1,"elements":[{"name":"v","index":1}]}`
+		if group {
+			fd = `{"segment_delimiter":"~","element_delimiter":"*","segment_declarations":[{"name":"G","type":"segment_group","is_target":true,"min":0,"max":-1,"child_segments":[{"name":"H","min":1,"max":1,` + h + `},` + l + `]}]}`
+		} else {
+			fd = `{"segment_delimiter":"~","element_delimiter":"*","segment_declarations":[{"name":"H","is_target":true,"min":0,"max":-1,` + h + `,"child_segments":[` + l + `]}]}`
+		}
+	}
+	filter, id := ".[n!='0']", "id"
+	if group {
+		filter, id = ".[H/n!='0']", "H/id"
+	}
+	schema := `{"parser_settings":{"version":"omni.2.1","file_format_type":"` + format + `"},"file_declaration":` + fd +
+		`,"transform_declarations":{"FINAL_OUTPUT":{"xpath":"` + filter + `","object":{"id":{"xpath":"` + id + `"},"vs":{"array":[{"xpath":"` + map[bool]string{true: "L/v", false: "L/v"}[group] + `"}]}}}}}`
+	st := &recStream{n: N, i: -1, next: func(i int) []byte {
+		if i < 0 || i >= N {
+			return nil
+		}
+		n := "5"
+		if (!runs && i%3 == 1) || (runs && (i%7 == 1 || i%7 == 2 || i%7 == 3 || i%7 == 5)) {
+			n = "0"
+		}
+		var sb strings.Builder
+		switch format {
+		case "csv2":
+			fmt.Fprintf(&sb, "H,r%d,%s\n", i%7, n)
+			for j := 0; j < i%3; j++ {
+				fmt.Fprintf(&sb, "L,v%d\n", j)
+			}
+		case "fixedlength2":
+			fmt.Fprintf(&sb, "H%-6s%s\n", fmt.Sprintf("r%d", i%7), n)
+			for j := 0; j < i%3; j++ {
+				fmt.Fprintf(&sb, "Lv%d  \n", j)
+			}
+		default:
+			fmt.Fprintf(&sb, "H*r%d*%s~", i%7, n)
+			for j := 0; j < i%3; j++ {
+				fmt.Fprintf(&sb, "L*v%d~", j)
+			}
+		}
+		return []byte(sb.String())
+	}}
+	mode := "hier-record-with-children"
+	if group {
+		mode = "hier-group"
+	}
+	if runs {
+		mode += "+reject-runs"
+	}
+	c.Inc("streams_with_hierarchical_targets")
+	c17Monitor(c, format, mode, filter, false, []byte(schema), st, N)
+}
+
 func runC17(c *core.Ctx) {
 	r := c.R
+	if c.Idx >= 84 {
+		c17Hier(c, c.Idx-84)
+		return
+	}
 	format := gen.Formats[c.Idx%len(gen.Formats)]
 	variant := c.Idx / len(gen.Formats) // 0..11
 	seps := variant&1 == 1
@@ -143,14 +229,15 @@ func runC17(c *core.Ctx) {
 	if c.Tier == core.Thorough {
 		N = 200000
 	}
+	rejectRuns := variant >= 8 || seps
 	o := gen.RenderOpts{BlankLines: seps, CRLF: r.Chance(1, 4)}
 	mk := func(i int) gen.Rec {
 		rec := gen.Rec{ID: fmt.Sprintf("r%d", i%7), Num: fmt.Sprint(100 + i%5)} // periodic content
 		for j := 0; j < k.NF; j++ {
 			rec.F = append(rec.F, fmt.Sprintf("v%d", (i+j)%3))
 		}
-		if mode == gen.ModeFilter && i%3 == 1 {
-			rec.Num = "0"
+		if mode == gen.ModeFilter && (i%3 == 1 && !rejectRuns || rejectRuns && (i%7 == 1 || i%7 == 2 || i%7 == 3 || i%7 == 5)) {
+			rec.Num = "0" // not a target; with rejectRuns, runs of three and of one consecutive non-targets
 		}
 		if mode == gen.ModeFailing && i%4 == 2 {
 			rec.Num = "x"
@@ -163,7 +250,11 @@ func runC17(c *core.Ctx) {
 		c.Inconclusive("could not derive a lazy stream for format " + format)
 		return
 	}
-	schema := k.Schema(mode)
+	c17Monitor(c, format, mode, k.Filter, seps, k.Schema(mode), st, N)
+}
+
+// c17Monitor reads the stream to its end and watches the size of the tree reachable from each delivered record.
+func c17Monitor(c *core.Ctx, format, mode, filter string, seps bool, schema []byte, st io.Reader, N int) {
 	s, err := omni.NewSchema(schema)
 	if err != nil {
 		c.Inconclusive("kit schema rejected: " + err.Error())
@@ -219,8 +310,8 @@ func runC17(c *core.Ctx) {
 		count(root)
 		samples = append(samples, samp{delivered, size})
 		c.Inc("size_samples")
-		if delivered <= N/4 || early == nil {
-			early = classify(root, n)
+		if delivered <= 20 || early == nil {
+			early = classify(root, n) // the baseline for attributing growth: the tree as it was within the first 20 records
 		}
 		late = classify(root, n)
 		if len(samples) > 30 && size > 50*samples[0].size+2000 {
@@ -235,17 +326,17 @@ func runC17(c *core.Ctx) {
 	if seps {
 		c.Inc("streams_with_separators")
 	}
-	if mode == gen.ModeFilter {
+	if mode == gen.ModeFilter || strings.HasPrefix(mode, "hier") {
 		c.Inc("streams_with_filtered_targets")
 	}
 	detail := map[string]interface{}{"format": format, "schema": string(schema), "mode": mode, "separators": seps, "records_planned": N,
 		"records_delivered": delivered, "terminal": termClass + " " + termMsg}
-	if !aborted && (termClass != omni.EOF || delivered < N/2) {
+	if !aborted && (termClass != omni.EOF || delivered < N/3) {
 		c.Inconclusive(fmt.Sprintf("stream for %s/%s ended early: delivered %d of %d, terminal %s %s", format, mode, delivered, N, termClass, core.Trunc(termMsg, 200)))
 		return
 	}
 	if delivered >= 1000 {
-		c.Distinct(format, mode, fmt.Sprint(seps), k.Filter)
+		c.Distinct(format, mode, fmt.Sprint(seps), filter)
 	}
 	var firstQ, secondH int
 	for _, sp := range samples {
